@@ -11,6 +11,7 @@ import (
 	"crypto/ed25519"
 	"encoding/binary"
 	"fmt"
+	"hash/crc32"
 	"strings"
 	"sync"
 	"sync/atomic"
@@ -54,6 +55,73 @@ func drawSize(c *core.Ctx, label string, big bool) int {
 		return largeSizes[c.Choose(label, len(largeSizes))]
 	}
 	return smallSizes[c.Choose(label, len(smallSizes))]
+}
+
+// Constructor ids of the tcp.* messages of the ADNL-over-TCP schema, derived from the declarations.
+var (
+	magicAuthentificate = crc32.ChecksumIEEE([]byte("tcp.authentificate nonce:bytes = tcp.Message"))
+	magicAuthComplete   = crc32.ChecksumIEEE([]byte("tcp.authentificationComplete key:PublicKey signature:bytes = tcp.Message"))
+)
+
+// tcpIDs: what a generated payload may start with on purpose (weights in drawTCPPayload).
+var tcpIDs = []struct {
+	name string
+	id   *uint32
+}{
+	{"tcp.pong", &adnlsrv.MagicPong},
+	{"tcp.ping", &adnlsrv.MagicPing},
+	{"tcp.authentificationNonce", &adnlsrv.MagicAuthNonce},
+	{"tcp.authentificate", &magicAuthentificate},
+	{"tcp.authentificationComplete", &magicAuthComplete},
+}
+
+// transportOwn reports whether a payload is a message that the receiving end of the transport handles itself
+// instead of handing it on, so that the harness makes no statement about its delivery and keeps it out of the
+// generated data:
+//
+//	server -> client: the well-formed tcp.pong (exactly 12 bytes: id, random_id), which the connection documents
+//	    to consume; everything that starts with the id of tcp.authentificationNonce (the connection takes it for
+//	    the server's half of the authentication exchange, whatever follows the id); and the well-formed 12-byte
+//	    tcp.ping (a transport message a client may answer itself).
+//	client -> server: the well-formed 12-byte tcp.ping (the connection sends its own keep-alive pings, which
+//	    the reference server cannot tell from a scripted one).
+//
+// A payload that merely STARTS with the id of tcp.ping or tcp.pong but has another length is not such a
+// message: it is data and has to arrive like any other payload.
+func transportOwn(p []byte, fromServer bool) bool {
+	if len(p) < 4 {
+		return false
+	}
+	m := binary.LittleEndian.Uint32(p)
+	if m == adnlsrv.MagicPing && len(p) == 12 {
+		return true
+	}
+	if fromServer {
+		return m == adnlsrv.MagicPong && len(p) == 12 || m == adnlsrv.MagicAuthNonce
+	}
+	return false
+}
+
+// drawTCPPayload draws a payload of 4..200 bytes that starts with the constructor id of a tcp.* message without
+// being a message the transport keeps to itself (see transportOwn; such a draw is turned into a near miss of
+// the id by changing its first byte).
+func drawTCPPayload(c *core.Ctx, fromServer bool) []byte {
+	k := c.Weighted("tcpid.which", 5, 2, 1, 1, 1)
+	p := c.Content("payload", c.Range("tcpid.len", 4, 200))
+	binary.LittleEndian.PutUint32(p, *tcpIDs[k].id)
+	dir := "client"
+	if fromServer {
+		dir = "server"
+	}
+	if transportOwn(p, fromServer) {
+		p[0] ^= 0x55
+		c.Class(dir + " payload starts with a near miss of the id of " + tcpIDs[k].name)
+	} else if len(p) < 12 {
+		c.Class(fmt.Sprintf("%s payload of 4..11 bytes starts with the id of %s", dir, tcpIDs[k].name))
+	} else {
+		c.Class(fmt.Sprintf("%s payload of 12..200 bytes starts with the id of %s", dir, tcpIDs[k].name))
+	}
+	return p
 }
 
 func keyFromSeed(seed uint64) ed25519.PrivateKey {
@@ -303,11 +371,14 @@ func drawConnScript(c *core.Ctx, big, burst bool, pool *packetPool) *connScript 
 			s.clientPk = append(s.clientPk, sp)
 			continue
 		}
-		p := c.Content("payload", drawSize(c, "size", i == bigAt))
-		if len(p) >= 4 && len(p) <= 12 {
-			// keep generated data clear of the two message kinds the connection consumes itself
-			if m := binary.LittleEndian.Uint32(p); m == adnlsrv.MagicPong || m == adnlsrv.MagicPing {
-				p[0] ^= 0x55
+		var p []byte
+		if i != bigAt && rare(c, "tcpid", 8) {
+			// data that looks like the start of a transport message: it has to arrive like any other payload
+			p = drawTCPPayload(c, fromServer)
+		} else {
+			p = c.Content("payload", drawSize(c, "size", i == bigAt))
+			if transportOwn(p, fromServer) {
+				p[0] ^= 0x55 // keep generated data clear of what the receiving end consumes itself
 			}
 		}
 		if fromServer {
